@@ -18,52 +18,52 @@ CHECKS = {
   text="hseq.New[T]() equals the generator's depth-first listing (names, tag keys, declared types, PureType, Anonymous, consecutive IDs) for every shape incl. pointer embedding and duplicate / case-variant names; RootOffs+Offset equals the real offset (pointer difference through selectors) for entries not behind a pointer; ForName/ForNameMaybe (first match, exact, absent keys), ForType/New1 (first match, absent and same-printed-name types panic), New[T](names...) for all permutations of <=3 keys, NewN with N distinct types in both orders, FMap and FMap1..9 positional; ForType on unnamed field types (identity, not assignability) incl. 12 absent types some field is assignable to.",
   note="Recursive embedded-pointer types are outside the alphabet (unfold does not terminate on them; the listing is undefined)."),
  "C04": dict(engine=E2, category="exploration", technique="bounded-exhaustive generation of nested struct shapes and iso lists; differential byte-level comparison with plain assignments", ref="DESIGN.md 4, 5/C04",
-  text="Join at nesting 1..3 over generated nested structs (padding variations, focus plain or promoted from a value-embedded struct, by name and by type, both associations) under the C01 byte oracle; ForShape2/3 on every generated shape and ForShape2..9 on a homogeneous 9-field struct for all N-permutations of names (N<=4; 7 thorough) against component-wise assignment; BiMap/BiMapS/B/I/F laws on converted values, Getter never writes, Setter writes the converted value; map lens over all maps with keys in {a,b,c}; Morphism over all lists of length <=4 (5) over {nil, three isos, two nested morphisms}: Forward copies exactly the covered foci, Forward;Inverse restores them, nothing else changes in either structure, the caller's slice is untouched; every base morphism over 1..4 of 6 isos used as an entry of five further morphisms, all built first and evaluated afterwards (aliasing between constructions).",
+  text="Join at nesting 1..3 over generated nested structs (padding variations, focus plain or promoted from a value-embedded struct, by name and by type, both associations) under the C01 byte oracle; ForShape2/3 on every generated shape and ForShape2..9 on a homogeneous 9-field struct for all N-permutations of names (N<=4; 7 thorough) against component-wise assignment; BiMap/BiMapS/B/I/F laws on converted values, Getter never writes, Setter writes the converted value; map lens over all maps with keys in {a,b,c}; Morphism over all lists of length <=4 (5) over {nil, three isos, two nested morphisms}: Forward copies exactly the covered foci, Forward;Inverse restores them, nothing else changes in either structure, the caller's slice is untouched; every base morphism over 1..4 of 6 isos used as an entry of five further morphisms, all built first and evaluated afterwards (aliasing between constructions); BiMap with conversions that do not fix zero and over the whole int64 range; Join used re-entrantly and over BiMap optics.",
   note="Padding bytes inside the struct are not compared (Join copies a whole sub-struct and may rewrite them); guards around the struct are."),
  "C05": dict(engine=E1, category="model_checking", technique=T_E1, ref="DESIGN.md 3, 5/C05",
-  text="Every interleaving (unbounded, state-cached) of producer, stage goroutine and one draining consumer per output, for every sequential stage, input 1..k (k<=3; 4 thorough), capacities 0..2, all 2^k predicate patterns and all Take n in 0..k+1: outputs equal the list function, each output and error channel closes, ForEach visits each element once in order, Take lets the producer complete at most n+cap sends, no deadlock and no goroutine left. Also: the stages at element type any with nil interface values, Seq over 17..300 arguments with the caller's slice overwritten after the call, and every stage over 9, 17, 33 elements explored up to 3 (4) deviations from the default schedule.",
+  text="Every interleaving (unbounded, state-cached) of producer, stage goroutine and one draining consumer per output, for every sequential stage, input 1..k (k<=3; 4 thorough), capacities 0..2, all 2^k predicate patterns and all Take n in 0..k+1: outputs equal the list function, each output and error channel closes, ForEach visits each element once in order, Take lets the producer complete at most n+cap sends, no deadlock and no goroutine left. Also: the stages at element type any with nil interface values, Seq over 17..300 arguments with the caller's slice overwritten after the call, and every stage over 9, 17, 33 elements explored up to 3 (4) deviations from the default schedule; consumers that are minutes late on the virtual clock; predicates that accept the zero value; Take(MaxInt); Fold over a non-neutral empty element; an execution still delivering at the step horizon is checked against the reference prefix.",
   note=NOTE_E1 + "Elements are the distinct ints 1..k (the stages are parametric in the element type; predicate answers are enumerated instead)."),
  "C06": dict(engine=E1, category="model_checking", technique=T_E1, ref="DESIGN.md 3, 5/C06",
-  text="Every ordering of environment moves (send, close, receive on any output, cancel: all free threads) for all 14 stages, k<=2 (3), capacities 0..1, consumers draining / absent / leaving after m values, error channel read by the harness, by StdErr or by nobody: no library panic, deliveries are a prefix of the uncancelled result, inputs closed + outputs drained => all channels closed and goroutines gone (Throttling pacer excepted), cancel + inputs closed => all library goroutines gone and every returned channel closed (observed on the simulated channel objects, no receive needed); Try-mode generators whose error channel nobody reads; an execution in which one goroutine spins alone up to the horizon is reported as a livelock.",
+  text="Every ordering of environment moves (send, close, receive on any output, cancel: all free threads) for all 14 stages, k<=2 (3), capacities 0..1, consumers draining / absent / leaving after m values, error channel read by the harness, by StdErr or by nobody: no library panic, deliveries are a prefix of the uncancelled result, inputs closed + outputs drained => all channels closed and goroutines gone (Throttling pacer excepted), cancel + inputs closed => all library goroutines gone and every returned channel closed (observed on the simulated channel objects, no receive needed); Try-mode generators whose error channel nobody reads; an execution in which one goroutine spins alone up to the horizon is reported as a livelock; Take over Seq of up to 2100 arguments; zero-interval Throttling; functions that fail for ever (liveness).",
   note=NOTE_E1 + "Fold under cancel is allowed to emit the fold of the consumed prefix (interpretation recorded in DESIGN.md). Generators are driven by consumers that leave or cancel, so that executions are finite."),
  "C07": dict(engine=E1, category="model_checking", technique=T_E1, ref="DESIGN.md 3, 5/C07",
-  text="All 2^k failing subsets (k<=3; 4 thorough) x {Lift, Try} x {Map, FMap} x capacities 0..2 x error consumer {reader thread, StdErr}; Emit over all failing subsets of indices 0..3, Unfold (fail-fast) over all failing subsets of seeds 1..4; every interleaving of value consumer, error consumer and stage: exact values, exact errors, exact call sequence of the user function, both channels closed, nothing blocked; one F value shared by two stages (the second must be unaffected by the first one's failures); producers that go idle instead of closing the input (fail-fast must still close both channels at the first failure).",
+  text="All 2^k failing subsets (k<=3; 4 thorough) x {Lift, Try} x {Map, FMap} x capacities 0..2 x error consumer {reader thread, StdErr}; Emit over all failing subsets of indices 0..3, Unfold (fail-fast) over all failing subsets of seeds 1..4; every interleaving of value consumer, error consumer and stage: exact values, exact errors, exact call sequence of the user function, both channels closed, nothing blocked; one F value shared by two stages (the second must be unaffected by the first one's failures); producers that go idle instead of closing the input (fail-fast must still close both channels at the first failure); faults that wrap context errors; 40-140 failing elements behind StdErr.",
   note=NOTE_E1 + "'random longer inputs' of the quantifier are not generated (sampling is outside the family); the stage loops are memoryless per element."),
  "C09": dict(engine=E1, category="model_checking", technique=T_E1, ref="DESIGN.md 3, 5/C09",
-  text="fork.Map/FMap/Filter/Partition/ForEach/Void with par 1..3 (4), inputs up to par*k<=6 (quick) / 3x3, 2x4, 4x2 (thorough), input capacity {0,k}, all failure/predicate patterns, Pure/Try (and Lift for the closure clauses); the user function yields, so in-flight calls complete in every order; every interleaving (state-cached, sibling workers identified up to permutation): each element processed exactly once, output and error multisets equal the sequential stage's, nothing sent on a closed channel, and the C06 closure / cancel / no-leak clauses with consumers that leave, cancel, unread error channel; par x k in {5x3, 9x2, 17x3, 33x2, 2x9, 3x17, 4x33} up to 2 (3) deviations from the default schedule. Data races on variables shared between goroutines are turned into explored interleavings by gosim (scheduling point before every statement touching a closure-captured or package-level variable that some goroutine body assigns).",
+  text="fork.Map/FMap/Filter/Partition/ForEach/Void with par 1..3 (4), inputs up to par*k<=6 (quick) / 3x3, 2x4, 4x2 (thorough), input capacity {0,k}, all failure/predicate patterns, Pure/Try (and Lift for the closure clauses); the user function yields, so in-flight calls complete in every order; every interleaving (state-cached, sibling workers identified up to permutation): each element processed exactly once, output and error multisets equal the sequential stage's, nothing sent on a closed channel, and the C06 closure / cancel / no-leak clauses with consumers that leave, cancel, unread error channel; par x k in {5x3, 9x2, 17x3, 33x2, 2x9, 3x17, 4x33} up to 2 (3) deviations from the default schedule; failing visitors for ForEach; one F value shared by two stages. Data races on variables shared between goroutines are turned into explored interleavings by gosim (scheduling point before every statement touching a closure-captured or package-level variable that some goroutine body assigns).",
   note=NOTE_E1 + "Symmetry reduction assumes worker goroutines started by one go statement run identical code (true of fork.go; a change that makes workers differ only by a captured index would be merged). Races on heap objects reached through pointers are not modelled (sequentially consistent scheduler); GOMAXPROCS is irrelevant to a model that enumerates all interleavings."),
  "C10": dict(engine=E1, category="model_checking", technique=T_E1, ref="DESIGN.md 3, 5/C10",
-  text="fork.Fold for par 1..3, every input sequence of length <=3 (4) over a 3-letter alphabet incl. empty and shorter than par, monoids sum (injective weights: the sum is the bag of elements), product, max, min, and, or, input capacity {0,len}; every interleaving = every distribution of elements over workers and arrival order at the collector: exactly one value equal to the sequential left fold, then closed, nothing left running; 5..65 workers over 0, 2, 7 elements up to 2 (3) deviations from the default schedule.",
+  text="fork.Fold for par 1..3, every input sequence of length <=3 (4) over a 3-letter alphabet incl. empty and shorter than par, monoids sum (injective weights: the sum is the bag of elements), product, max, min, and, or, input capacity {0,len}; every interleaving = every distribution of elements over workers and arrival order at the collector: exactly one value equal to the sequential left fold, then closed, nothing left running; 5..65 workers over 0, 2, 7 elements up to 2 (3) deviations from the default schedule; 300 workers idle next to an independent 2-worker fold.",
   note=NOTE_E1 + "Same symmetry assumption as C09."),
  "C11": dict(engine=E1, category="model_checking", technique=T_E1, ref="DESIGN.md 3, 5/C11",
   text="Emit (cap 0..2, frequency 1 and 3 ticks, Pure / Try with all 15 failing subsets of indices 0..3 / Lift) and Unfold (cap 0..2, three step functions) against every consumer gap script over {0,f,2f} up to 3 (4) receives, and against a canceller firing at every clock grid point, on rt's virtual clock with every same-instant interleaving explored: exact successive sequence, function called at most once per tick (call i not before i ticks, consecutive calls >= f apart), no value before its tick, a keep-up consumer receives index i exactly at tick i+1, after cancel both channels close and the generator exits (also when nobody reads the error channel).",
   note=NOTE_E1 + "Time is rt's virtual clock (advances only when no thread can run - the testing/synctest rule); real-time jitter is not modelled."),
  "C12": dict(engine=E1, category="model_checking", technique=T_E1, ref="DESIGN.md 3, 5/C12",
-  text="Join over every combination of 0..3 inputs with 0..2 distinct elements each, capacities 0..1, one producer per input, canceller absent or free, every interleaving: received sequence is an interleaving of the inputs (per-input order, no loss, duplicate or invention), the output closes exactly when all producers have closed (the consumer reads a shared counter at the moment it observes the close), closes with zero inputs, no goroutine left; any-typed inputs with a nil interface element; wide fan-in of 5..24 inputs up to 2 (3) deviations from the default schedule.",
+  text="Join over every combination of 0..3 inputs with 0..2 distinct elements each, capacities 0..1, one producer per input, canceller absent or free, every interleaving: received sequence is an interleaving of the inputs (per-input order, no loss, duplicate or invention), the output closes exactly when all producers have closed (the consumer reads a shared counter at the moment it observes the close), closes with zero inputs, no goroutine left; any-typed inputs with a nil interface element; wide fan-in of 5..24 inputs up to 2 (3) deviations from the default schedule; the same channel passed twice.",
   note=NOTE_E1 + "Quick tier: <=4 elements on <=2 inputs, <=3 on 3 inputs; thorough: all combinations up to 2+2+2 (preemption bound 4 at 6 elements)."),
  "C08": dict(engine=E1, category="model_checking", technique=T_E1, ref="DESIGN.md 3, 5/C08",
-  text="Every interleaving (unbounded, state-cached) of the translated pipe.New pump with 1-2 senders, a receiver and a free canceller, for capacities 0..2 (3), 0..3 (4) sends, sender close, receiver drain/stop/absent and both sync.Pool recycling policies, is checked for FIFO, exactly-once, delivery of every completed send after cancel, clean end of stream on sender close, sender never waiting for the receiver, and no library panic; single-sender runs of 9, 17, 33 (65) sends up to 3 (4) deviations from the default schedule (a backlog beyond any small fixed buffer, at every head position).",
+  text="Every interleaving (unbounded, state-cached) of the translated pipe.New pump with 1-2 senders, a receiver and a free canceller, for capacities 0..2 (3), 0..3 (4) sends, sender close, receiver drain/stop/absent and both sync.Pool recycling policies, is checked for FIFO, exactly-once, delivery of every completed send after cancel, clean end of stream on sender close, sender never waiting for the receiver, and no library panic; single-sender runs of 9, 17, 33 (65) sends up to 3 (4) deviations from the default schedule (a backlog beyond any small fixed buffer, at every head position); element type any with nil values.",
   note=NOTE_E1 + "Bounds: capacities and send counts as stated; values are distinct ints."),
  "C13": dict(engine=E1, category="model_checking", technique=T_E1, ref="DESIGN.md 3, 5/C13",
-  text="Throttling for ops 1..3, interval 4 ticks, input capacity 0..2, k=2*ops+c+3 elements, producer gaps {0,I/2,I,3I}, consumer schedules (constant paces; take j then idle G in {I/2,I,I+1,2I,10I} then burst, for every j; two idle periods in thorough), cancel at grid points, on the virtual clock with every same-instant interleaving: exact order, closure, every window of length interval holds at most 2*ops+1+c deliveries before cancel (the maximum observed per (ops,c) is reported and reaches the bound exactly), saturated latency of element i within [floor(i/ops)*I, +I].",
+  text="Throttling for ops 1..3, interval 4 ticks, input capacity 0..2, k=2*ops+c+3 elements, producer gaps {0,I/2,I,3I}, consumer schedules (constant paces; take j then idle G in {I/2,I,I+1,2I,10I} then burst, for every j; two idle periods in thorough), cancel at grid points, on the virtual clock with every same-instant interleaving: exact order, closure, every window of length interval holds at most 2*ops+1+c deliveries before cancel (the maximum observed per (ops,c) is reported and reaches the bound exactly), saturated latency of element i within [floor(i/ops)*I, +I]; contexts with a deadline at five instants; the prefix-closed clauses also on executions cut at the step horizon.",
   note=NOTE_E1 + "Virtual clock as in C11; the latency upper bound is a statement about the ideal clock. Deliveries at the very instant of the cancel are not counted (they may follow it)."),
  "C14": dict(engine=E2, category="model_checking", technique="bounded-exhaustive enumeration of expression trees, each driven as a state machine on the real iterators against a list reference", ref="DESIGN.md 4, 5/C14",
-  text="All 720k expression trees of depth <=3 over From/FromSlice/TakeWhile/DropWhile/Filter/Map/Plus/Join with 5 predicates, 3 mappings, 6 flat-map functions (incl. nil-returning and predicate-terminated inner sequences), thorough: depth 4 over a reduced alphabet; at every position Value/Next agree with the list-function image, nil iff empty, ForEach with an error at every visit position, source slices (with sentinel-filled spare capacity) unmodified.",
+  text="All 720k expression trees of depth <=3 over From/FromSlice/TakeWhile/DropWhile/Filter/Map/Plus/Join with 5 predicates, 3 mappings, 6 flat-map functions (incl. nil-returning and predicate-terminated inner sequences), thorough: depth 4 over a reduced alphabet; at every position Value/Next agree with the list-function image, nil iff empty, ForEach with an error (rotating over io.EOF, a wrapped io.EOF, context.Canceled, ...) at every visit position, source slices (with sentinel-filled spare capacity) unmodified.",
   note="Trusted: the reference list functions in e2/c14. Iterators are not shared between trees; Next is not called after it returned false. Random deeper trees are not sampled."),
  "C15": dict(engine=E2, category="model_checking", technique="bounded-exhaustive enumeration of two-sorted expression trees, each driven as a state machine on the real iterators against a list-of-pairs reference", ref="DESIGN.md 4, 5/C15",
-  text="Every tree of depth <=3 and the depth-4 trees with any non-Plus root (Plus with one shallow operand) over pair.From/TakeWhile/DropWhile/Filter/Map/Plus/Join/ToSeq/FromSeq mixed with plain seq (9.6M trees; thorough 315M incl. depth 5), keys 100+i vs values i and argument-asymmetric functions: (Key,Value) at every position, Map keeps keys, ForEach stops at the first error.",
+  text="Every tree of depth <=3 and the depth-4 trees with any non-Plus root (Plus with one shallow operand) over pair.From/TakeWhile/DropWhile/Filter/Map/Plus/Join/ToSeq/FromSeq mixed with plain seq (9.6M trees; thorough 315M incl. depth 5), keys 100+i vs values i and argument-asymmetric functions: (Key,Value) at every position, Map keeps keys, ForEach stops at the first error; interface-typed values with nil among them.",
   note="Trusted: the reference in e2/c15. Same protocol assumptions as C14."),
  "C16": dict(engine=E2, category="model_checking", technique="explicit-state BFS over well-typed combinator programs executed on the real builder, reference-model comparison of visit traces, fault injection at every callback position", ref="DESIGN.md 4, 5/C16",
   text="All well-typed programs of From/Join/LiftF/WrapF/Unit/Yield up to 5 (6) steps over an 8-type universe (2.4M distinct trees in quick), each replayed on a fresh From: the visit trace equals the reference builder's (innermost-open-context rule, type names = duct.TypeOf of the step's parameters, depths, Root flags, child counts), enter/leave well-bracketed, and a visitor failing at any callback position gets its error back with no further callback.",
   note="Trusted: reference builder in e2/c16, statically generated instantiation table reg_gen.go."),
  "C17": dict(engine=E2, category="exploration", technique="exhaustive enumeration over boundary alphabets (all pairs and triples)", ref="DESIGN.md 5/C17",
-  text="eq.Int/ord.Int over 9 boundary ints and eq.String/ord.String over 13 strings (all pairs, all triples): agreement with ==,<,>, equivalence and total-order laws, Ord EQ iff Eq; From wrappers and ContraMap with asymmetric base instances (argument order), monoid.From/FromOp/semigroup.From with non-commutative operations.",
+  text="eq.Int/ord.Int over 9 boundary ints and eq.String/ord.String over 13 strings (all pairs, all triples): agreement with ==,<,>, equivalence and total-order laws, Ord EQ iff Eq; From wrappers and ContraMap with asymmetric base instances (argument order), monoid.From/FromOp/semigroup.From with non-commutative operations; comparator results outside {LT,EQ,GT} handed on as they are; strings sharing storage with their own prefixes.",
   note="Values outside the alphabets are not covered (explicit limit of the statement's quantifier for a bounded check)."),
  "C18": dict(engine=E2, category="model_checking", technique="explicit-state BFS over all reachable states of the real skip list (enumerated node heights), reference map comparison on every transition", ref="DESIGN.md 4, 5/C18",
   text="All reachable states (not a depth bound) of the skip list for 3 keys x 2 values x heights 1..3, 4 keys x heights 1..2 (1..3 under ord.Int), 2 keys x heights 1..8 (thorough: 4 keys x heights 1..4, 5 keys x heights 1..3, 3 keys x heights 1..6) under ord.Int, a reversed ord.From and ord.String; a state is the complete object graph of the list (every field of the list and of every node, by reflection, pointers normalised); every Put/Get/Remove from every state is executed on a fresh real list: return values equal a map's, printed keys strictly ascending, forward pointers only to larger live keys.",
   note="Node heights are chosen by the driver through a seam file added to the staged copy of the package (replaces the list's rand.Source only). Long random histories are not sampled."),
  "C19": dict(engine=E2, category="model_checking", technique="bounded-exhaustive script enumeration (tree of persistent values, no de-duplication) on both real implementations against one reference", ref="DESIGN.md 4, 5/C19",
-  text="From New(xs) for all xs over {1,2,3} of length <=3, every script of Cons(1|2|3)/Tail up to 6 (8) operations on the linked-list and on the slice trait: Length, IsEmpty, Head/Tail walk and Fold (non-commutative a*10+b from empty 7) equal the reference list; arguments and all earlier siblings are re-observed after later operations (persistence).",
+  text="From New(xs) for all xs over {1,2,3} of length <=3, every script of Cons(1|2|3)/Tail up to 6 (8) operations on the linked-list and on the slice trait: Length, IsEmpty, Head/Tail walk and Fold (non-commutative a*10+b from empty 7) equal the reference list; arguments and all earlier siblings are re-observed after later operations (persistence); starts from argument slices with spare capacity; sequences of 1025..4097 elements folded with an operation that is slow on one element.",
   note="Element values 1..3 stand for all values (parametricity)."),
  "C20": dict(engine=E2, category="exploration", technique="exhaustive enumeration over arities 2..20 x argument sets x function-level interleavings of two overlapping invocations", ref="DESIGN.md 5/C20",
   text="Every exported PipeN found in the staged source (N=2..20): call trace = 1..N exactly once per invocation, value equals the sequential composition of pairwise non-commuting affine maps, nothing applied at composition time, nil interface values travel through an any-typed pipeline, re-entrant invocation from every position, and two overlapping invocations under all C(2N,N) function-level interleavings (N<=5) / all park points (N>5).",
